@@ -111,6 +111,15 @@ structure SoundAt (f : Nat) : Prop where
   idx : ∀ ts s rest, parseIndexSpecifier f ts = .ok (s, rest) → Spells ts rest s.toks ∧ s.good
   lit : ∀ ts e rest, parseLit f ts = .ok (e, rest) → Good 0 ts e rest
   paren : ∀ ts e rest, cur ts = .lparen → parseParenExpr f ts = .ok (e, rest) → Good 0 ts e rest
+  caseE : ∀ ts e rest, parseCaseExpr f ts = .ok (e, rest) → Good 0 ts e rest
+  caseLoop : ∀ ts ws rest, caseWhenLoop f ts = .ok (ws, rest) →
+    Spells ts rest (yieldW ws) ∧ precOKw ws = true ∧ nfw ws = true
+  caseWhen : ∀ ts c t rest, parseCaseWhen f ts = .ok ((c, t), rest) →
+    Spells ts rest (T .when_ :: (yield c ++ (T .then_ :: yield t))) ∧ PrecOK c ∧ NF c ∧ PrecOK t ∧ NF t
+  caseElse : ∀ ts e rest, parseCaseElse f ts = .ok (e, rest) → Spells ts rest (T .else_ :: yield e) ∧ PrecOK e ∧ NF e
+  ifE : ∀ ts e rest, parseIfExpr f ts = .ok (e, rest) → Good 0 ts e rest
+  arr : ∀ ts e rest, parseSimpleArrayLiteral f ts = .ok (e, rest) → Good 0 ts e rest
+  cast : ∀ ts e rest, parseCastExpr f ts = .ok (e, rest) → Good 0 ts e rest
 
 theorem Good.mono {k k' : Nat} {ts e rest} (h : Good k ts e rest) (hk : k ≤ k') : Good k' ts e rest :=
   ⟨h.1, h.2.1, h.2.2.1, Nat.le_trans h.2.2.2 hk⟩
@@ -150,7 +159,8 @@ theorem sound_zero : SoundAt 0 := by
   constructor <;> intros <;> simp_all [parseExpr, parseOr, orLoop, parseAnd, andLoop, parseNot, parseComparison,
     parseBetweenTail, parseInCondition, inListLoop, parseBitOr, bitOrLoop, parseBitXor, bitXorLoop, parseBitAnd,
     bitAndLoop, parseBitShift, shiftLoop, parseAddSub, addLoop, parseMulDiv, mulLoop, parseUnary, parseSelector,
-    selLoop, parseIndexSpecifier, parseLit, parseParenExpr]
+    selLoop, parseIndexSpecifier, parseLit, parseParenExpr, parseCaseExpr, caseWhenLoop, parseCaseWhen, parseCaseElse,
+    parseIfExpr, parseSimpleArrayLiteral, parseCastExpr]
 
 /-! ## leaf lemmas -/
 
@@ -309,6 +319,72 @@ theorem startsPosKw_of_none {ts rest : List Token} {ys : List Tok'} (h : posKw? 
         simp [proj] at heq
         exact absurd heq.1.1 hk
       · rfl
+
+/-! ## the type of a CAST -/
+
+theorem pathLoop_spells : ∀ (f : Nat) (ts : List Token) (ids : List TypeP.Ident) (rest : List Token),
+    TypeP.pathLoop f ts = .ok (ids, rest) →
+      Spells ts rest (dotToks (ids.map (·.name))) ∧ (ids = [] → TypeP.cur ts ≠ .dot)
+  | 0, _, _, _, h => by simp [TypeP.pathLoop] at h
+  | f + 1, ts, ids, rest, h => by
+    simp only [TypeP.pathLoop] at h
+    split at h
+    · rename_i hc
+      obtain ⟨⟨i1, ts1⟩, h1, h2⟩ := TypeP.Res.bind_eq_ok.1 h
+      obtain ⟨⟨is2, ts2⟩, h3, h4⟩ := TypeP.Res.bind_eq_ok.1 h2
+      simp only [TypeP.Res.ok.injEq, Prod.mk.injEq] at h4
+      obtain ⟨rfl, rfl⟩ := h4
+      simp only [TypeP.parseIdent, TypeP.expect] at h1
+      split at h1
+      · rename_i hc2
+        simp only [TypeP.Res.bind_ok, TypeP.Res.ok.injEq, Prod.mk.injEq] at h1
+        obtain ⟨rfl, rfl⟩ := h1
+        obtain ⟨s3, _⟩ := pathLoop_spells f _ _ _ h3
+        have hd1 : cur ts = .dot := tcur_dot.1 hc
+        have hi1 : cur ts.tail = .ident := tcur_ident.1 hc2
+        have sv := Spells.valTok hi1 (by decide)
+        rw [tokVal_ident hi1] at sv
+        refine ⟨?_, fun h0 => by cases h0⟩
+        simpa [dotToks, TypeP.hd, hd] using ((Spells.tok hd1 (by decide) (by decide)).append sv).append s3
+      · simp [TypeP.Res.bind] at h1
+    · rename_i hc
+      simp only [TypeP.Res.ok.injEq, Prod.mk.injEq] at h
+      obtain ⟨rfl, rfl⟩ := h
+      exact ⟨Spells.nil _, fun _ => hc⟩
+
+theorem castType_sound {f : Nat} {ts : List Token} {ns : List Bytes} {rest : List Token}
+    (h : castType f ts = .ok (ns, rest)) : Spells ts rest (pathToks ns) ∧ nfT ns = true := by
+  obtain ⟨t, tl, rfl, hk, hs⟩ := castType_ok_inv h
+  cases f with
+  | zero => rw [castType_zero _ (by simp [TypeP.cur, TypeP.tk_ident, hk]) hs] at h; cases h
+  | succ f =>
+    rw [castType_succ hk hs] at h
+    cases hp : TypeP.pathLoop f tl with
+    | ok a =>
+      obtain ⟨ids, rest'⟩ := a
+      rw [hp] at h
+      simp only [Res.ok.injEq, Prod.mk.injEq] at h
+      obtain ⟨rfl, rfl⟩ := h
+      obtain ⟨s1, hnil⟩ := pathLoop_spells f tl ids rest' hp
+      have hc : cur (t :: tl) = .ident := by simp [cur, hk, tk]
+      have sv := Spells.valTok hc (by decide)
+      rw [tokVal_ident hc] at sv
+      refine ⟨by rw [pathToks_eq]; exact sv.append s1, ?_⟩
+      cases ids with
+      | cons i r => simp [nfT]
+      | nil =>
+        have hnd := hnil rfl
+        simp only [List.map_nil, nfT]
+        simp only [TypeP.lookaheadSimpleType, TypeP.cur, TypeP.tk_ident.2 hk, ne_eq, not_true_eq_false, if_false,
+          TypeP.hd, List.headD_cons, TypeP.lookaheadKind, List.tail_cons] at hs
+        rw [← simpleName?_eq hk]
+        cases hsn : TypeP.simpleName? t with
+        | none => rfl
+        | some n =>
+          simp only [hsn, Option.isSome_some, if_true, bne_eq_false_iff_eq] at hs
+          exact absurd hs hnd
+    | raise => rw [hp] at h; cases h
+    | outOfFuel => rw [hp] at h; cases h
 
 /-! ## the induction step, one lemma per function -/
 
@@ -757,8 +833,11 @@ theorem s_lit (ih : SoundAt f) : ∀ ts e rest, parseLit (f + 1) ts = .ok (e, re
     simp only [parseParam, expectThen, hc, if_true] at h; cases h
     have sv := Spells.valTok hc (by decide); rw [tokVal_param hc] at sv
     exact ⟨sv, rfl, rfl, by simp [level]⟩
+  · exact ih.caseE _ _ _ h
+  · exact ih.ifE _ _ _ h
+  · exact ih.cast _ _ _ h
   · cases h
-  · cases h
+  · exact ih.arr _ _ _ h
   · rename_i hc; exact ih.paren _ _ _ hc h
   · rename_i hc
     simp only [parseLitIdent] at h
@@ -773,6 +852,192 @@ theorem s_lit (ih : SoundAt f) : ∀ ts e rest, parseLit (f + 1) ts = .ok (e, re
     exact ⟨sv, rfl, rfl, by simp [level]⟩
   · cases h
 
+theorem s_caseWhen (ih : SoundAt f) : ∀ ts c t rest, parseCaseWhen (f + 1) ts = .ok ((c, t), rest) →
+    Spells ts rest (T .when_ :: (yield c ++ (T .then_ :: yield t))) ∧ PrecOK c ∧ NF c ∧ PrecOK t ∧ NF t := by
+  intro ts c t rest h
+  simp only [parseCaseWhen] at h
+  split at h
+  · rename_i hc
+    obtain ⟨⟨c1, ts1⟩, h1, h2⟩ := Res.bind_eq_ok.1 h
+    simp only at h2
+    split at h2
+    · rename_i hc2
+      obtain ⟨⟨t1, ts2⟩, h3, h4⟩ := Res.bind_eq_ok.1 h2
+      cases h4
+      obtain ⟨s1, p1, n1, _⟩ := ih.expr _ _ _ h1
+      obtain ⟨s2, p2, n2, _⟩ := ih.expr _ _ _ h3
+      exact ⟨(Spells.tok hc (by decide) (by decide)).append
+        (s1.append ((Spells.tok hc2 (by decide) (by decide)).append s2)), p1, n1, p2, n2⟩
+    · cases h2
+  · cases h
+
+theorem s_caseLoop (ih : SoundAt f) : ∀ ts ws rest, caseWhenLoop (f + 1) ts = .ok (ws, rest) →
+    Spells ts rest (yieldW ws) ∧ precOKw ws = true ∧ nfw ws = true := by
+  intro ts ws rest h
+  simp only [caseWhenLoop] at h
+  split at h
+  · obtain ⟨⟨⟨c, t⟩, ts1⟩, h1, h2⟩ := Res.bind_eq_ok.1 h
+    obtain ⟨⟨m, ts2⟩, h3, h4⟩ := Res.bind_eq_ok.1 h2
+    cases h4
+    obtain ⟨s1, p1, n1, p2, n2⟩ := ih.caseWhen _ _ _ _ h1
+    obtain ⟨s3, p3, n3⟩ := ih.caseLoop _ _ _ h3
+    refine ⟨?_, ?_, ?_⟩
+    · simpa [yieldW] using s1.append s3
+    · simp only [PrecOK] at p1 p2; simp [precOKw, p1, p2, p3]
+    · simp only [NF] at n1 n2; simp [nfw, n1, n2, n3]
+  · cases h; exact ⟨Spells.nil _, rfl, rfl⟩
+
+theorem s_caseElse (ih : SoundAt f) : ∀ ts e rest, parseCaseElse (f + 1) ts = .ok (e, rest) →
+    Spells ts rest (T .else_ :: yield e) ∧ PrecOK e ∧ NF e := by
+  intro ts e rest h
+  simp only [parseCaseElse] at h
+  split at h
+  · rename_i hc
+    obtain ⟨s1, p1, n1, _⟩ := ih.expr _ _ _ h
+    exact ⟨(Spells.tok hc (by decide) (by decide)).append s1, p1, n1⟩
+  · cases h
+
+/-- the optional operand of `parseCaseExpr` -/
+theorem s_caseOperand (ih : SoundAt f) {ts : List Token} {o : OExpr} {rest : List Token}
+    (h : (if cur ts = .when_ then Res.ok (OExpr.none, ts)
+      else (parseExpr f ts).bind fun p => .ok (OExpr.some p.1, p.2)) = .ok (o, rest)) :
+    Spells ts rest (yieldO [] o) ∧ precOKo o = true ∧ nfo o = true := by
+  split at h
+  · cases h; exact ⟨Spells.nil _, rfl, rfl⟩
+  · obtain ⟨⟨e1, ts1⟩, h1, h2⟩ := Res.bind_eq_ok.1 h
+    cases h2
+    obtain ⟨s1, p1, n1, _⟩ := ih.expr _ _ _ h1
+    exact ⟨by simpa [yieldO] using s1, p1, n1⟩
+
+/-- the optional ELSE clause of `parseCaseExpr` -/
+theorem s_caseEls (ih : SoundAt f) {ts : List Token} {o : OExpr} {rest : List Token}
+    (h : (if cur ts = .else_ then (parseCaseElse f ts).bind fun p => .ok (OExpr.some p.1, p.2)
+      else Res.ok (OExpr.none, ts)) = .ok (o, rest)) :
+    Spells ts rest (yieldO [T .else_] o) ∧ precOKo o = true ∧ nfo o = true := by
+  split at h
+  · obtain ⟨⟨e1, ts1⟩, h1, h2⟩ := Res.bind_eq_ok.1 h
+    cases h2
+    obtain ⟨s1, p1, n1⟩ := ih.caseElse _ _ _ h1
+    exact ⟨by simpa [yieldO] using s1, p1, n1⟩
+  · cases h; exact ⟨Spells.nil _, rfl, rfl⟩
+
+theorem s_caseE (ih : SoundAt f) : ∀ ts e rest, parseCaseExpr (f + 1) ts = .ok (e, rest) → Good 0 ts e rest := by
+  intro ts e rest h
+  simp only [parseCaseExpr] at h
+  split at h
+  · rename_i hc
+    obtain ⟨⟨o, ts1⟩, h1, h2⟩ := Res.bind_eq_ok.1 h
+    obtain ⟨⟨⟨c, t⟩, ts2⟩, h3, h4⟩ := Res.bind_eq_ok.1 h2
+    obtain ⟨⟨ws, ts3⟩, h5, h6⟩ := Res.bind_eq_ok.1 h4
+    obtain ⟨⟨el, ts4⟩, h7, h8⟩ := Res.bind_eq_ok.1 h6
+    simp only at h8
+    split at h8
+    · rename_i hc2
+      cases h8
+      obtain ⟨so, po, no⟩ := s_caseOperand ih h1
+      obtain ⟨sw, pc, nc, pt, nt⟩ := ih.caseWhen _ _ _ _ h3
+      obtain ⟨sl, pl, nl⟩ := ih.caseLoop _ _ _ h5
+      obtain ⟨se, pe, ne⟩ := s_caseEls ih h7
+      refine ⟨?_, ?_, ?_, by simp [level]⟩
+      · simpa [yield] using (Spells.tok hc (by decide) (by decide)).append
+          (so.append (sw.append (sl.append (se.append (Spells.tok hc2 (by decide) (by decide))))))
+      · simp only [PrecOK] at pc pt ⊢; simp [precOK, po, pc, pt, pl, pe]
+      · simp only [NF] at nc nt ⊢; simp [nf, no, nc, nt, nl, ne]
+    · cases h8
+  · cases h
+
+theorem s_ifE (ih : SoundAt f) : ∀ ts e rest, parseIfExpr (f + 1) ts = .ok (e, rest) → Good 0 ts e rest := by
+  intro ts e rest h
+  simp only [parseIfExpr] at h
+  split at h
+  · rename_i hc
+    split at h
+    · rename_i hc1
+      obtain ⟨⟨c, ts1⟩, h1, h2⟩ := Res.bind_eq_ok.1 h
+      simp only at h2
+      split at h2
+      · rename_i hc2
+        obtain ⟨⟨t, ts2⟩, h3, h4⟩ := Res.bind_eq_ok.1 h2
+        simp only at h4
+        split at h4
+        · rename_i hc3
+          obtain ⟨⟨x, ts3⟩, h5, h6⟩ := Res.bind_eq_ok.1 h4
+          simp only at h6
+          split at h6
+          · rename_i hc4
+            cases h6
+            obtain ⟨s1, p1, n1, _⟩ := ih.expr _ _ _ h1
+            obtain ⟨s2, p2, n2, _⟩ := ih.expr _ _ _ h3
+            obtain ⟨s3, p3, n3, _⟩ := ih.expr _ _ _ h5
+            refine ⟨?_, ?_, ?_, by simp [level]⟩
+            · simpa [yield] using (Spells.tok hc (by decide) (by decide)).append
+                ((Spells.tok hc1 (by decide) (by decide)).append (s1.append
+                  ((Spells.tok hc2 (by decide) (by decide)).append (s2.append
+                    ((Spells.tok hc3 (by decide) (by decide)).append
+                      (s3.append (Spells.tok hc4 (by decide) (by decide))))))))
+            · simp only [PrecOK] at p1 p2 p3 ⊢; simp [precOK, p1, p2, p3]
+            · simp only [NF] at n1 n2 n3 ⊢; simp [nf, n1, n2, n3]
+          · cases h6
+        · cases h4
+      · cases h2
+    · cases h
+  · cases h
+
+theorem s_cast (ih : SoundAt f) : ∀ ts e rest, parseCastExpr (f + 1) ts = .ok (e, rest) → Good 0 ts e rest := by
+  intro ts e rest h
+  simp only [parseCastExpr] at h
+  split at h
+  · rename_i hc
+    split at h
+    · rename_i hc1
+      obtain ⟨⟨e1, ts1⟩, h1, h2⟩ := Res.bind_eq_ok.1 h
+      simp only at h2
+      split at h2
+      · rename_i hc2
+        obtain ⟨⟨ns, ts2⟩, h3, h4⟩ := Res.bind_eq_ok.1 h2
+        simp only at h4
+        split at h4
+        · rename_i hc3
+          cases h4
+          obtain ⟨s1, p1, n1, _⟩ := ih.expr _ _ _ h1
+          obtain ⟨s2, n2⟩ := castType_sound h3
+          refine ⟨?_, ?_, ?_, by simp [level]⟩
+          · simpa [yield] using (Spells.tok hc (by decide) (by decide)).append
+              ((Spells.tok hc1 (by decide) (by decide)).append (s1.append
+                ((Spells.tok hc2 (by decide) (by decide)).append (s2.append (Spells.tok hc3 (by decide) (by decide))))))
+          · simpa [PrecOK, precOK] using p1
+          · simp only [NF] at n1 ⊢; simp [nf, n1, n2]
+        · cases h4
+      · cases h2
+    · cases h
+  · cases h
+
+theorem s_arr (ih : SoundAt f) : ∀ ts e rest, parseSimpleArrayLiteral (f + 1) ts = .ok (e, rest) → Good 0 ts e rest := by
+  intro ts e rest h
+  simp only [parseSimpleArrayLiteral] at h
+  split at h
+  · rename_i hc
+    split at h
+    · rename_i hc1
+      cases h
+      refine ⟨?_, rfl, rfl, by simp [level]⟩
+      simpa [yield] using (Spells.tok hc (by decide) (by decide)).append (Spells.tok hc1 (by decide) (by decide))
+    · obtain ⟨⟨e1, ts1⟩, h1, h2⟩ := Res.bind_eq_ok.1 h
+      obtain ⟨⟨m, ts2⟩, h3, h4⟩ := Res.bind_eq_ok.1 h2
+      simp only at h4
+      split at h4
+      · rename_i hc2
+        cases h4
+        obtain ⟨s1, p1, n1, _⟩ := ih.expr _ _ _ h1
+        obtain ⟨s2, p2, n2⟩ := ih.inList _ _ _ h3
+        refine ⟨?_, ?_, ?_, by simp [level]⟩
+        · simpa [yield] using (Spells.tok hc (by decide) (by decide)).append
+            (s1.append (s2.append (Spells.tok hc2 (by decide) (by decide))))
+        · simp only [PrecOK] at p1 ⊢; simp [precOK, precOKs, p1, p2]
+        · simp only [NF] at n1 ⊢; simp [nf, nfs, n1, n2]
+      · cases h4
+  · cases h
+
 end Step
 
 theorem sound_all : ∀ f, SoundAt f
@@ -784,7 +1049,9 @@ theorem sound_all : ∀ f, SoundAt f
       bitOr := s_bitOr ih, bitOrLoop := s_bitOrLoop ih, bitXor := s_bitXor ih, bitXorLoop := s_bitXorLoop ih,
       bitAnd := s_bitAnd ih, bitAndLoop := s_bitAndLoop ih, shift := s_shift ih, shiftLoop := s_shiftLoop ih,
       add := s_add ih, addLoop := s_addLoop ih, mul := s_mul ih, mulLoop := s_mulLoop ih, unary := s_unary ih,
-      sel := s_sel ih, selLoop := s_selLoop ih, idx := s_idx ih, lit := s_lit ih, paren := s_paren ih }
+      sel := s_sel ih, selLoop := s_selLoop ih, idx := s_idx ih, lit := s_lit ih, paren := s_paren ih,
+      caseE := s_caseE ih, caseLoop := s_caseLoop ih, caseWhen := s_caseWhen ih, caseElse := s_caseElse ih,
+      ifE := s_ifE ih, arr := s_arr ih, cast := s_cast ih }
 
 /-- **Soundness.**  If `parseExpr` succeeds, the tokens it consumed are exactly the yield of the tree (so every
 `paren` node is a `(` … `)` pair around exactly its operand), the tree is grouped as the GoogleSQL table says, and
